@@ -942,6 +942,16 @@ def enumerate_paths(prog, body, variant=None, entry=0, max_visits=2, inline=1, l
                     continue
                 seen_t = set()
                 alts = [(v, b) for v, b in t["targets"]] + [("otherwise", t["otherwise"])]
+                if pl is not None and not pl["p"] and de[0] == "discr":
+                    nvar = None
+                    for d in body._defs.get(pl["l"], []):
+                        if d[0] == "stmt" and d[3]["k"] == "discr" and "nvar" in d[3]:
+                            nvar = int(d[3]["nvar"])
+                    if nvar is not None:
+                        taken = {v for v, _ in t["targets"]}
+                        missing = [x for x in range(nvar) if x not in taken]
+                        if len(missing) == 1:
+                            alts = [(v, b) for v, b in t["targets"]] + [(missing[0], t["otherwise"])]
                 for v, b in alts:
                     if body.blocks[b]["term"]["k"] == "unreachable" and not body.blocks[b]["stmts"]:
                         continue
